@@ -164,6 +164,8 @@ impl IOCtx {
             }
         }
 
+        #[cfg(feature = "verif")]
+        crate::verif::io_point("temp_before_write", export_file.as_path());
         fs::write(&export_file, contents)
             .change_context_lazy(|| make_error!(self, PpErrorKind::WriteFile))
             .attach_printable_lazy(|| format!("could not write temp file: `{export_file}`"))
@@ -171,6 +173,10 @@ impl IOCtx {
 
     /// Finish
     pub fn done(mut self) -> Result<(), PpError> {
+        #[cfg(feature = "verif")]
+        if let CtxOut::Build { path, .. } | CtxOut::InMemoryBuild { path, .. } = &self.out {
+            crate::verif::io_point("output_before_done", path);
+        }
         match &mut self.out {
             CtxOut::Build { path, out } => out
                 .flush()
@@ -292,6 +298,8 @@ impl CtxOut {
                         )
                     })
                     .map(BufWriter::new)?;
+                #[cfg(feature = "verif")]
+                crate::verif::io_point("output_created", output_path.as_ref());
                 Ok(Self::Build {
                     out,
                     path: output_path.as_ref().to_path_buf(),
